@@ -73,14 +73,63 @@ class Items:
         self.toks = tokenize(src)
         self.consts = {}      # NAME -> string value
         self.regexes = {}     # NAME -> regex literal
-        for m in re.finditer(r"\bconst\s+([A-Z_0-9]+)\s*:\s*&(?:'static\s+)?str\s*=\s*(\"(?:\\.|[^\"\\])*\")\s*;", src):
-            self.consts[m.group(1)] = unescape(m.group(2))
-        for m in re.finditer(r"\bstatic\s+([A-Z_0-9]+)\s*:\s*Lazy\s*<\s*Regex\s*>\s*=\s*lazy_regex!\s*\(\s*(r#*\".*?\"#*|\"(?:\\.|[^\"\\])*\")\s*\)\s*;", src, re.S):
-            lit = m.group(2)
-            self.regexes[m.group(1)] = rawstr(lit) if lit.startswith("r") else unescape(lit)
+        strlit = r'(r#*\".*?\"#*|\"(?:\\.|[^\"\\])*\")'
+        for m in re.finditer(r"\bconst\s+([A-Z_0-9]+)\s*:\s*&(?:'static\s+)?str\s*=\s*" + strlit + r"\s*;", src, re.S):
+            self.consts[m.group(1)] = self._lit(m.group(2))
+        for m in re.finditer(r"\bstatic\s+([A-Z_0-9]+)\s*:\s*Lazy\s*<\s*Regex\s*>\s*=\s*lazy_regex!\s*\(\s*" + strlit + r"\s*\)\s*;", src, re.S):
+            self.regexes[m.group(1)] = self._lit(m.group(2))
+        # the same thing spelled out: Lazy::new(|| Regex::new(<literal | CONST | &format!(..)>).unwrap())
+        for m in re.finditer(r"\bstatic\s+([A-Z_0-9]+)\s*:\s*Lazy\s*<\s*Regex\s*>\s*=\s*Lazy::new\(\s*\|\|\s*Regex::new\(\s*(.*?)\s*\)\s*\.unwrap\(\)\s*\)\s*;", src, re.S):
+            self.regexes[m.group(1)] = self._regex_arg(m.group(1), m.group(2))
         for m in re.finditer(r"\bstatic\s+([A-Z_0-9]+)\s*:[^=;]*Regex[^=;]*=", src):
             if m.group(1) not in self.regexes:
                 raise Unsupported(f"regex static {m.group(1)} is not a lazy_regex!(literal)")
+
+    @staticmethod
+    def _lit(lit):
+        return rawstr(lit) if lit.startswith("r") else unescape(lit)
+
+    def _regex_arg(self, name, arg):
+        """Value of the argument of Regex::new: a string literal, a &str const, or
+        &format!(literal, CONST, ..) with {} / {NAME} placeholders over &str consts."""
+        arg = arg.strip()
+        if arg.startswith("&"):
+            arg = arg[1:].strip()
+        if re.fullmatch(r'r#*\".*\"#*|\"(?:\\.|[^\"\\])*\"', arg, re.S):
+            return self._lit(arg)
+        if re.fullmatch(r"[A-Z_0-9]+", arg):
+            if arg not in self.consts:
+                raise Unsupported(f"regex static {name}: unknown const {arg}")
+            return self.consts[arg]
+        m = re.fullmatch(r'format!\s*\(\s*(r#*\".*?\"#*|\"(?:\\.|[^\"\\])*\")\s*((?:,\s*[A-Z_0-9]+\s*)*),?\s*\)', arg, re.S)
+        if not m:
+            raise Unsupported(f"regex static {name}: unsupported Regex::new argument {arg[:60]!r}")
+        fmt = self._lit(m.group(1))
+        args = [a.strip() for a in m.group(2).split(",") if a.strip()]
+        out, i, k = [], 0, 0
+        while i < len(fmt):
+            c = fmt[i]
+            if fmt.startswith("{{", i) or fmt.startswith("}}", i):
+                out.append(c)
+                i += 2
+            elif c == "{":
+                j = fmt.index("}", i)
+                ph = fmt[i + 1:j]
+                if ph == "":
+                    if k >= len(args):
+                        raise Unsupported(f"regex static {name}: format! placeholder without argument")
+                    ph = args[k]
+                    k += 1
+                if ph not in self.consts:
+                    raise Unsupported(f"regex static {name}: format! placeholder {{{ph}}} is not a &str const")
+                out.append(self.consts[ph])
+                i = j + 1
+            elif c == "}":
+                raise Unsupported(f"regex static {name}: stray }} in format string")
+            else:
+                out.append(c)
+                i += 1
+        return "".join(out)
 
     def struct_fields(self, name):
         m = re.search(r"((?:#\[[^\]]*\]\s*)*)pub\s+struct\s+" + name + r"\s*\{([^}]*)\}", self.src)
